@@ -15,7 +15,7 @@ def hints_for(e) -> Dict[str, str]:
 def gen_exprs(ctx: Ctx, n_random: int, max_leaves: int, exhaustive_leaves: int, wf: bool = True) -> List[Tuple[str, Any]]:
     rng = ctx.rng
     out: List[Tuple[str, Any]] = []
-    alphabet = [("cond", "1"), ("cond", "2"), ("cond", "501"), ("cond", "901")]
+    alphabet = [("cond", "1"), ("cond", "2"), ("cond", "900"), ("cond", "901")]  # 900: the last hint key, next to the first format key
     for n in range(1, exhaustive_leaves + 1):
         for e in E.all_shapes(n, alphabet):
             out.append(("exhaustive", e))
